@@ -10,6 +10,16 @@ def Op.ent : Op → List Nat
   | .setAvail e _ _ _ => e
   | .removeAll e => e
 
+/-- which helper of `model.NodeManagementUseCaseDataType` `apply` transcribes for an operation: 1 `AddUseCaseSupport`
+    (`UC.add`), 2 `SetAvailability` (`UC.setAvail`), 3 `RemoveUseCaseSupport` (`UC.remove`), 4
+    `RemoveUseCaseDataForAddress` (`UC.removeAll`). The translator regenerates, for each `EntityLocal` operation, the
+    helper the source applies between copy and store (`Spine.Props.C20Gen.c20_operations_apply_their_helper`). -/
+def Op.helper : Op → Nat
+  | .add .. => 1
+  | .setAvail .. => 2
+  | .remove .. => 3
+  | .removeAll _ => 4
+
 /-- the sub-history of the operations issued on entity `e` -/
 def onEnt (e : List Nat) (ops : List Op) : List Op := ops.filter fun o => o.ent = e
 
